@@ -367,3 +367,15 @@ func SortedKeys[V any](m map[string]V) []string {
 	sort.Strings(ks)
 	return ks
 }
+
+// FundModule mints fresh coins into a module account (module accounts are blocked for plain sends).
+func (c *L2) FundModule(module string, coins ...sdk.Coin) {
+	cs := sdk.NewCoins(coins...)
+	ctx := c.Ctx.WithEventManager(sdk.NewEventManager())
+	if err := c.BK.MintCoins(ctx, MinterModule, cs); err != nil {
+		panic(err)
+	}
+	if err := c.BK.SendCoinsFromModuleToModule(ctx, MinterModule, module, cs); err != nil {
+		panic(err)
+	}
+}
